@@ -80,18 +80,18 @@ def gen_case(rng, cid, tier):
 
 EXPLORE = [
     # (scenario lines, quick runs, thorough runs): systematic depth-first enumeration of all schedules
-    (["pool 1", "job 0", "client w", "main e0"], 1500, 15000),
-    (["pool 1", "job 0", "client w", "client w", "main e0"], 1500, 15000),          # the D6 shape
-    (["pool 1", "client u", "client u", "main t"], 1500, 15000),                    # the D6b shape
-    (["pool 1", "job 0", "client u", "client w", "main e0 t"], 1000, 15000),
-    (["pool 2", "job 0", "job 1 e0", "main e1 w"], 1000, 15000),
-    (["pool 1", "job 0", "job 1 e0 t", "client w", "main e1 u"], 0, 15000),
-    (["pool 2", "job 0", "client e0 w", "main e0 w"], 0, 15000),
-    (["pool 1", "job 0 x", "client w", "main e0 w"], 1000, 15000),                  # a job that throws
-    (["pool 1", "job 0", "job 1 e0 x e0", "main e1 w d"], 800, 15000),              # throws after enqueuing a child
-    (["pool 1 init=2", "client u", "main t"], 800, 15000),                          # terminate() during worker start-up
-    (["pool 1", "job 0", "job 1 t e0 d", "client u", "main e1 u"], 0, 15000),       # enqueue inside a job after terminate
-    (["pool 1", "job 0 i", "main e0 e0 d"], 0, 15000),                              # destruction while jobs are queued
+    (["pool 1", "job 0", "client w", "main e0"], 600, 10000),
+    (["pool 1", "job 0", "client w", "client w", "main e0"], 600, 10000),          # the D6 shape
+    (["pool 1", "client u", "client u", "main t"], 600, 10000),                    # the D6b shape
+    (["pool 1", "job 0", "client u", "client w", "main e0 t"], 400, 10000),
+    (["pool 2", "job 0", "job 1 e0", "main e1 w"], 400, 10000),
+    (["pool 1", "job 0", "job 1 e0 t", "client w", "main e1 u"], 0, 10000),
+    (["pool 2", "job 0", "client e0 w", "main e0 w"], 0, 10000),
+    (["pool 1", "job 0 x", "client w", "main e0 w"], 400, 10000),                  # a job that throws
+    (["pool 1", "job 0", "job 1 e0 x e0", "main e1 w d"], 320, 10000),              # throws after enqueuing a child
+    (["pool 1 init=2", "client u", "main t"], 320, 10000),                          # terminate() during worker start-up
+    (["pool 1", "job 0", "job 1 t e0 d", "client u", "main e1 u"], 0, 10000),       # enqueue inside a job after terminate
+    (["pool 1", "job 0 i", "main e0 e0 d"], 0, 10000),                              # destruction while jobs are queued
 ]
 
 
@@ -106,7 +106,9 @@ def explore_cases(tier):
 
 class C10(flow.Spec):
     pid = "C10"
-    harness = dict(name="c10", sources=["c10.cpp"], flags=["-include", SHIM], repo_sources=["tlx/thread_pool.cpp"])
+    # -O0: the harness spends its time in thread hand-overs, not in computation; compiling is 3x faster
+    harness = dict(name="c10", sources=["c10.cpp"], flags=["-include", SHIM], repo_sources=["tlx/thread_pool.cpp"],
+                   std_flags=["-O0" if f == "-O1" else f for f in core.SAN_FLAGS])
     nontrivial_rule = ("scenario = pool size 1-4 (optionally with an init_thread callback), a table of job bodies (jobs enqueueing "
                        "jobs / terminating the pool / throwing std::runtime_error / calling done() and idle()), "
                        "0-3 client threads and the main thread issuing enqueue / loop_until_empty / loop_until_terminate / "
@@ -168,7 +170,7 @@ class C10(flow.Spec):
 
     def cases(self, ctx, seed, tier, round_no=0):
         rng = random.Random(seed * 1000003 + round_no * 7919 + 10)
-        n = 700 if tier == "quick" else 10000
+        n = 500 if tier == "quick" else 10000
         cs = [gen_case(rng, i, tier) for i in range(n)]
         if round_no == 0:
             cs += explore_cases(tier)
